@@ -11,49 +11,67 @@ import (
 
 type Uint32 struct{ a atomic.Uint32 }
 
-func (x *Uint32) Load() uint32                       { vsched.Yield("atomic.Load"); return x.a.Load() }
-func (x *Uint32) Store(v uint32)                     { vsched.Yield("atomic.Store"); x.a.Store(v) }
-func (x *Uint32) Add(d uint32) uint32                { vsched.Yield("atomic.Add"); return x.a.Add(d) }
-func (x *Uint32) Swap(v uint32) uint32               { vsched.Yield("atomic.Swap"); return x.a.Swap(v) }
-func (x *Uint32) CompareAndSwap(o, n uint32) bool    { vsched.Yield("atomic.CAS"); return x.a.CompareAndSwap(o, n) }
+func (x *Uint32) Load() uint32         { vsched.Yield("atomic.Load"); return x.a.Load() }
+func (x *Uint32) Store(v uint32)       { vsched.Yield("atomic.Store"); x.a.Store(v) }
+func (x *Uint32) Add(d uint32) uint32  { vsched.Yield("atomic.Add"); return x.a.Add(d) }
+func (x *Uint32) Swap(v uint32) uint32 { vsched.Yield("atomic.Swap"); return x.a.Swap(v) }
+func (x *Uint32) CompareAndSwap(o, n uint32) bool {
+	vsched.Yield("atomic.CAS")
+	return x.a.CompareAndSwap(o, n)
+}
 
 type Int32 struct{ a atomic.Int32 }
 
-func (x *Int32) Load() int32                     { vsched.Yield("atomic.Load"); return x.a.Load() }
-func (x *Int32) Store(v int32)                   { vsched.Yield("atomic.Store"); x.a.Store(v) }
-func (x *Int32) Add(d int32) int32               { vsched.Yield("atomic.Add"); return x.a.Add(d) }
-func (x *Int32) Swap(v int32) int32              { vsched.Yield("atomic.Swap"); return x.a.Swap(v) }
-func (x *Int32) CompareAndSwap(o, n int32) bool  { vsched.Yield("atomic.CAS"); return x.a.CompareAndSwap(o, n) }
+func (x *Int32) Load() int32        { vsched.Yield("atomic.Load"); return x.a.Load() }
+func (x *Int32) Store(v int32)      { vsched.Yield("atomic.Store"); x.a.Store(v) }
+func (x *Int32) Add(d int32) int32  { vsched.Yield("atomic.Add"); return x.a.Add(d) }
+func (x *Int32) Swap(v int32) int32 { vsched.Yield("atomic.Swap"); return x.a.Swap(v) }
+func (x *Int32) CompareAndSwap(o, n int32) bool {
+	vsched.Yield("atomic.CAS")
+	return x.a.CompareAndSwap(o, n)
+}
 
 type Uint64 struct{ a atomic.Uint64 }
 
-func (x *Uint64) Load() uint64                    { vsched.Yield("atomic.Load"); return x.a.Load() }
-func (x *Uint64) Store(v uint64)                  { vsched.Yield("atomic.Store"); x.a.Store(v) }
-func (x *Uint64) Add(d uint64) uint64             { vsched.Yield("atomic.Add"); return x.a.Add(d) }
-func (x *Uint64) Swap(v uint64) uint64            { vsched.Yield("atomic.Swap"); return x.a.Swap(v) }
-func (x *Uint64) CompareAndSwap(o, n uint64) bool { vsched.Yield("atomic.CAS"); return x.a.CompareAndSwap(o, n) }
+func (x *Uint64) Load() uint64         { vsched.Yield("atomic.Load"); return x.a.Load() }
+func (x *Uint64) Store(v uint64)       { vsched.Yield("atomic.Store"); x.a.Store(v) }
+func (x *Uint64) Add(d uint64) uint64  { vsched.Yield("atomic.Add"); return x.a.Add(d) }
+func (x *Uint64) Swap(v uint64) uint64 { vsched.Yield("atomic.Swap"); return x.a.Swap(v) }
+func (x *Uint64) CompareAndSwap(o, n uint64) bool {
+	vsched.Yield("atomic.CAS")
+	return x.a.CompareAndSwap(o, n)
+}
 
 type Int64 struct{ a atomic.Int64 }
 
-func (x *Int64) Load() int64                    { vsched.Yield("atomic.Load"); return x.a.Load() }
-func (x *Int64) Store(v int64)                  { vsched.Yield("atomic.Store"); x.a.Store(v) }
-func (x *Int64) Add(d int64) int64              { vsched.Yield("atomic.Add"); return x.a.Add(d) }
-func (x *Int64) Swap(v int64) int64             { vsched.Yield("atomic.Swap"); return x.a.Swap(v) }
-func (x *Int64) CompareAndSwap(o, n int64) bool { vsched.Yield("atomic.CAS"); return x.a.CompareAndSwap(o, n) }
+func (x *Int64) Load() int64        { vsched.Yield("atomic.Load"); return x.a.Load() }
+func (x *Int64) Store(v int64)      { vsched.Yield("atomic.Store"); x.a.Store(v) }
+func (x *Int64) Add(d int64) int64  { vsched.Yield("atomic.Add"); return x.a.Add(d) }
+func (x *Int64) Swap(v int64) int64 { vsched.Yield("atomic.Swap"); return x.a.Swap(v) }
+func (x *Int64) CompareAndSwap(o, n int64) bool {
+	vsched.Yield("atomic.CAS")
+	return x.a.CompareAndSwap(o, n)
+}
 
 type Bool struct{ a atomic.Bool }
 
-func (x *Bool) Load() bool                    { vsched.Yield("atomic.Load"); return x.a.Load() }
-func (x *Bool) Store(v bool)                  { vsched.Yield("atomic.Store"); x.a.Store(v) }
-func (x *Bool) Swap(v bool) bool              { vsched.Yield("atomic.Swap"); return x.a.Swap(v) }
-func (x *Bool) CompareAndSwap(o, n bool) bool { vsched.Yield("atomic.CAS"); return x.a.CompareAndSwap(o, n) }
+func (x *Bool) Load() bool       { vsched.Yield("atomic.Load"); return x.a.Load() }
+func (x *Bool) Store(v bool)     { vsched.Yield("atomic.Store"); x.a.Store(v) }
+func (x *Bool) Swap(v bool) bool { vsched.Yield("atomic.Swap"); return x.a.Swap(v) }
+func (x *Bool) CompareAndSwap(o, n bool) bool {
+	vsched.Yield("atomic.CAS")
+	return x.a.CompareAndSwap(o, n)
+}
 
 type Pointer[T any] struct{ a atomic.Pointer[T] }
 
-func (x *Pointer[T]) Load() *T                    { vsched.Yield("atomic.Load"); return x.a.Load() }
-func (x *Pointer[T]) Store(v *T)                  { vsched.Yield("atomic.Store"); x.a.Store(v) }
-func (x *Pointer[T]) Swap(v *T) *T                { vsched.Yield("atomic.Swap"); return x.a.Swap(v) }
-func (x *Pointer[T]) CompareAndSwap(o, n *T) bool { vsched.Yield("atomic.CAS"); return x.a.CompareAndSwap(o, n) }
+func (x *Pointer[T]) Load() *T     { vsched.Yield("atomic.Load"); return x.a.Load() }
+func (x *Pointer[T]) Store(v *T)   { vsched.Yield("atomic.Store"); x.a.Store(v) }
+func (x *Pointer[T]) Swap(v *T) *T { vsched.Yield("atomic.Swap"); return x.a.Swap(v) }
+func (x *Pointer[T]) CompareAndSwap(o, n *T) bool {
+	vsched.Yield("atomic.CAS")
+	return x.a.CompareAndSwap(o, n)
+}
 
 type Value struct{ a atomic.Value }
 
@@ -89,3 +107,41 @@ func CompareAndSwapInt64(p *int64, o, n int64) bool {
 	vsched.Yield("atomic.CAS")
 	return atomic.CompareAndSwapInt64(p, o, n)
 }
+
+// And / Or (Go 1.23) and the remaining value types
+func (x *Uint32) And(m uint32) uint32 { vsched.Yield("atomic.And"); return x.a.And(m) }
+func (x *Uint32) Or(m uint32) uint32  { vsched.Yield("atomic.Or"); return x.a.Or(m) }
+func (x *Int32) And(m int32) int32    { vsched.Yield("atomic.And"); return x.a.And(m) }
+func (x *Int32) Or(m int32) int32     { vsched.Yield("atomic.Or"); return x.a.Or(m) }
+func (x *Uint64) And(m uint64) uint64 { vsched.Yield("atomic.And"); return x.a.And(m) }
+func (x *Uint64) Or(m uint64) uint64  { vsched.Yield("atomic.Or"); return x.a.Or(m) }
+func (x *Int64) And(m int64) int64    { vsched.Yield("atomic.And"); return x.a.And(m) }
+func (x *Int64) Or(m int64) int64     { vsched.Yield("atomic.Or"); return x.a.Or(m) }
+
+type Uintptr struct{ a atomic.Uintptr }
+
+func (x *Uintptr) Load() uintptr          { vsched.Yield("atomic.Load"); return x.a.Load() }
+func (x *Uintptr) Store(v uintptr)        { vsched.Yield("atomic.Store"); x.a.Store(v) }
+func (x *Uintptr) Add(d uintptr) uintptr  { vsched.Yield("atomic.Add"); return x.a.Add(d) }
+func (x *Uintptr) Swap(v uintptr) uintptr { vsched.Yield("atomic.Swap"); return x.a.Swap(v) }
+func (x *Uintptr) CompareAndSwap(o, n uintptr) bool {
+	vsched.Yield("atomic.CAS")
+	return x.a.CompareAndSwap(o, n)
+}
+
+func (x *Value) Swap(v any) any { vsched.Yield("atomic.Swap"); return x.a.Swap(v) }
+func (x *Value) CompareAndSwap(o, n any) bool {
+	vsched.Yield("atomic.CAS")
+	return x.a.CompareAndSwap(o, n)
+}
+
+func SwapUint32(p *uint32, v uint32) uint32 {
+	vsched.Yield("atomic.Swap")
+	return atomic.SwapUint32(p, v)
+}
+func SwapInt32(p *int32, v int32) int32 { vsched.Yield("atomic.Swap"); return atomic.SwapInt32(p, v) }
+func SwapUint64(p *uint64, v uint64) uint64 {
+	vsched.Yield("atomic.Swap")
+	return atomic.SwapUint64(p, v)
+}
+func SwapInt64(p *int64, v int64) int64 { vsched.Yield("atomic.Swap"); return atomic.SwapInt64(p, v) }
